@@ -28,7 +28,11 @@ class Measure(Part):
 
     def strategy(self, tier):
         a = st.one_of(st.integers(0, 12), st.integers(0, 40), st.integers(0, 200), st.sampled_from([-3, -1, 0, 1, 2, 3]).map(lambda d: ["rel", d]))
-        return st.builds(lambda t, a: {"tree": t, "A": a}, GT.node(0, "free"), a)
+        from . import c14 as C14   # registers the builders of the extra leaves
+
+        # overflow="ignore" is an explicit request to exceed the width (not generated for texts either in this mode)
+        extra = st.one_of(C14.pretty_leaf().filter(lambda n: n["overflow"] != "ignore"), C14.syntax_leaf(), C14.other_leaves("spinner"))
+        return st.builds(lambda t, a: {"tree": t, "A": a}, st.one_of(GT.node(0, "free"), GT.node(0, "free"), GT.node(0, "free", extra=extra), extra), a)
 
     def check(self, spec, ctx):
         from rich.console import Console
